@@ -30,4 +30,30 @@ def havoc_cut(shape, keep=CONFIG_FIELDS):
     def cut(I, ctx, fn, args, kwargs, node):
         havoc_state(I, ctx, args[0], shape, keep)
         return None
+    cut._havoc = True
+    return cut
+
+
+def state_key(I, ctx, ref):
+    from . import models
+    c = ctx.get(ref) if isinstance(ref, Ref) else ref.heap[ref.ref.cell]
+    return models.struct_key(I, ctx, ref)
+
+
+def pure_cut(result, name=None):
+    """contract `pure: modifies nothing, raises nothing, result is a function of (state, arguments)`.
+    result: 'bool' | 'chips' | 'int'.  The same (state, arguments) give the same result symbol, so two
+    calls on an unchanged state agree (determinism is part of the callee's contract)."""
+    def cut(I, ctx, fn, args, kwargs, node):
+        from . import models
+        key = (fn.qual, models.struct_key(I, ctx, args[0]), tuple(models.struct_key(I, ctx, a) for a in args[1:]))
+        memo = I.memo_uf
+        if key not in memo:
+            k = len(memo)
+            base = (name or fn.qual.rsplit('.', 1)[-1]) + f'!{k}'
+            memo[key] = I.fresh(base, {'bool': 'bool', 'chips': 'chips', 'int': 'int'}[result])
+            if not hasattr(I, 'cut_log'):
+                I.cut_log = []
+            I.cut_log.append((fn.qual, memo[key]))
+        return memo[key]
     return cut
